@@ -363,7 +363,7 @@ def name_value_composers(ctx, report, rule='C18.R4'):
     if pair is None or lst is None or 'compose' not in pair.methods or 'compose' not in lst.methods:
         report.error('%s: NameValuePair / NameValuePairList composers vanished' % rule)
         return
-    fp, fl = pair.methods['compose'], lst.methods['compose']
+    fp, fl = pair.resolve('compose'), lst.resolve('compose')
     report.touch(fp)
     report.touch(fl)
     cases = [(None, False, b'key'), ('', False, b'key='), ('v', False, b'key=v'), ('a b', True, b'key="a b"'), ('', True, b'key=""'), (None, True, b'key')]
@@ -856,7 +856,7 @@ def spf_term_spellings(ctx, report, rule='C18.R8'):
         elif rejected:
             report.add(rule, '%s@name[%s]' % (c.construct, nm), 'the name %r is not recognised in the spelling(s) %s; %s' % (nm, rejected[:4], SPF_NAMES_REF))
     # (c) spaces after the last term
-    g = top.methods['_parse']
+    g = top.resolve('_parse')
     report.touch(g)
     try:
         want = None
